@@ -50,8 +50,15 @@ prop('C03', title='Every expressed Interest completes exactly once with the righ
      bounded=[('bounded.c03', 'run', SH)],
      level_text='Deciding check: run-time contracts (outcome per Interest, pending-table invariant, no internal error, loop exception handler '
                 'silent) on the real NDNApp (both front-ends) over all event histories up to a stated length on a virtual-time loop. '
-                'Deductive fragment: PendingIntEntry.satisfy (done-guard, single completion) proved for all verdicts and future states.',
-     level_note='Bounded by history length and alphabet (see evidence.bounded); liveness rests on asyncio.wait_for.',
+                'Deductive fragments (unbounded, pyvc/z3; current front-end): PendingIntEntry.satisfy (done-guard, single completion, all '
+                'verdicts); InterestTreeNode.nack_interest / satisfy / timeout / cancel over pending lists of ANY length (exactly the '
+                'addressed entries leave the list, each is completed / handed to validation at most once, all others stay untouched in '
+                'order, return value = nothing remains); _on_data over any number of prefix nodes, _on_nack, _remove_pending, '
+                '_wait_for_data (timeout / cancellation mapped after removal, other outcomes passed through) and express_raw_interest '
+                '(one fresh entry registered before the Interest is sent, coroutine waits on that future).',
+     level_note='Bounded by history length and alphabet (see evidence.bounded); liveness rests on asyncio.wait_for. The composition of the '
+                'per-function contracts over all event histories (a global exactly-once theorem) is NOT proved: asyncio futures / tasks, '
+                'pygtrie and wait_for are assumed interfaces, futures of distinct entries are assumed distinct.',
      technique=T_BOUNDED)
 prop('C04', title='Incoming Interests reach exactly the handler of their longest registered prefix', level='proof',
      bounded=[('bounded.c04', 'run', SH)],
